@@ -65,7 +65,9 @@ def gen_cases(rng, tier):
     gens = []
     for i in range(120 if tier == 'quick' else 1500):
         k = i % 4
-        if k == 0:
+        if i % 8 == 5:
+            s = g.factory_script()
+        elif k == 0:
             s = g.ext_script()
         elif k == 1:
             s = g.script(depth=2, kind='props')
